@@ -46,6 +46,12 @@ Section Uniform.
   Lemma derived_refl : forall l, derived l l.
   Proof. intros l. apply Forall_forall. intros p Hp. exists p. split; [exact Hp | apply pol_le_refl]. Qed.
 
+  Lemma derived_trans : forall l2 l1 l0, derived l2 l1 -> derived l1 l0 -> derived l2 l0.
+  Proof.
+    intros l2 l1 l0 A B. unfold derived in *. rewrite Forall_forall in *. intros p2 Hp2. destruct (A p2 Hp2) as (p1 & Hp1 & L21).
+    destruct (B p1 Hp1) as (p0 & Hp0 & L10). exists p0. split; [exact Hp0 | intros t Ht; apply L10, L21; exact Ht].
+  Qed.
+
   Lemma derived_upd_first : forall f g l, (forall p, pol_le (g p) p) -> derived (upd_first f g l) l.
   Proof.
     intros f g l Hg. induction l as [|x r IH]; cbn; [constructor|]. destruct (f x).
@@ -127,7 +133,10 @@ Section Uniform.
     - (* Restore *) cbn. apply derived_map. intros q. same.
     - (* RenameRp *) unfold rename_rp. destruct (get_db c db) as [d0|]; [|apply derived_refl]. destruct (get_pol c db rp) as [p0|]; [|apply derived_refl].
       destruct (if nn =? rp then false else _); [apply derived_refl|]. destruct (negb _); [apply derived_refl|].
-      destruct (rekey c); [destruct (mkdef || _) | destruct mkdef]; cbn; apply derived_upd_first; intros q; same.
+      (* (deep-C16, round 6: with rekey the entry stored under the new name, if any, is overwritten: a filter before the update) *)
+      destruct (rekey c); [destruct (mkdef || _); destruct (nn =? rp_name p0) | destruct mkdef]; cbn;
+        try (apply derived_upd_first; intros q; same);
+        (eapply derived_trans; [apply derived_upd_first; intros q; same | apply derived_filter]).
     - (* CancelDeleteSg *) unfold cancel_delete_sg. destruct (get_pol c db rp) as [p|]; [|apply derived_refl].
       destruct (find _ (rp_sgs p)) as [g|]; [|apply derived_refl]. destruct (negb (sg_del g)); [apply derived_refl|].
       destruct (safecancel c && _); [apply derived_refl|]. cbn. apply derived_upd_first; intros q; same.
